@@ -8,9 +8,11 @@ import (
 	"fmt"
 	"io"
 	"math"
+	"runtime"
 	"sort"
 	"strings"
 	"sync"
+	"sync/atomic"
 	"time"
 
 	"pipelined.dev/signal"
@@ -594,15 +596,67 @@ func (g *Kern) emitKPos(sk, dk Kind, specials []uint64) {
 			g.st.lines++
 		}
 	}
+	g.constantBlocks(sk, dk, specials)
 	g.longScreen(sk, dk, specials)
 	g.hugeScreen(sk, dk, specials)
+}
+
+// constantBlocks: long runs of ONE value (768 samples, so that whole aligned blocks of 256 and 512 are constant),
+// over a destination that holds +0 / -0 / the stale pattern everywhere: code that treats a block of equal samples as
+// one sample, or skips a block that compares equal to what the destination holds, shows up only here. The model judges
+// the first, a middle and the last position of each run.
+func (g *Kern) constantBlocks(sk, dk Kind, specials []uint64) {
+	const L = 768
+	vals := append([]uint64{}, specials...)
+	if sk.IsFloat() {
+		vals = append(vals, floatCell(math.Copysign(0, -1), sk), floatCell(0, sk))
+	}
+	for vi, v := range vals {
+		src := Alloc(sk, false, signal.Allocator{Channels: 1, Length: L, Capacity: L})
+		dst := Alloc(dk, false, signal.Allocator{Channels: 1, Length: L, Capacity: L})
+		fill := stalePattern(dk)
+		if dk.IsFloat() {
+			// opposite zero where the source is a zero, else alternate
+			fill = floatCell(0, dk)
+			if vi%2 == 0 {
+				fill = floatCell(math.Copysign(0, -1), dk)
+			}
+			if sk.IsFloat() {
+				if f := cellToFloat(v, sk); f == 0 && !math.Signbit(f) {
+					fill = floatCell(math.Copysign(0, -1), dk)
+				} else if f == 0 {
+					fill = floatCell(0, dk)
+				}
+			}
+		}
+		for i := 0; i < L; i++ {
+			src.SetSample(i, v)
+			dst.SetSample(i, fill)
+		}
+		if p := try(func() { convCall(sk, dk)(src, dst) }); p != "" {
+			fmt.Fprintf(g.out, "kpanic %s %s %s constant-block %s\n", convName(sk, dk), sk, dk, strings.ReplaceAll(p, " ", "_"))
+			g.st.lines++
+			continue
+		}
+		if sk.IsFloat() && math.IsNaN(cellToFloat(v, sk)) {
+			continue
+		}
+		fmt.Fprintf(g.out, "kseq %s %s %s\n", convName(sk, dk), sk, dk)
+		for _, i := range []int{0, 255, 256, 511, 512, L - 1} {
+			fmt.Fprintf(g.out, "k %s %s\n", cellString(v, sk), cellString(dst.Sample(i), dk))
+		}
+		g.st.lines += 7
+	}
+	g.st.branch("constant-blocks")
 }
 
 // longScreen: very long buffers (parallel or chunked conversion paths). The result at position i may
 // depend only on the sample at position i, so the long run is screened natively against a short run of
 // the same values (which the model judges); positions that differ are emitted as kernel lines.
 // lengths of the position-independence screen: past 2^16, 2^18 and 2^20 samples, none a multiple of 4
-var longScreenLengths = []int{1<<16 + 1, 1<<18 + 3, 1<<20 + 3}
+// ... and exact multiples of the block sizes audio code likes (10 ms / 20 ms / 60 ms at 48 kHz, MP3 / AAC frames, one
+// second at 44.1 and 48 kHz): a block loop with a wrong remainder test loses the last block exactly at these lengths
+var longScreenLengths = []int{480, 960, 1152, 1920, 2048, 2880, 4410, 4800, 5760, 8820, 9600, 44100, 48000, 1<<16 + 1, 1<<18 + 3, 1<<20 + 3}
 
 func (g *Kern) longScreen(sk, dk Kind, specials []uint64) {
 	ref, p := runKernelOpt(sk, dk, specials, false)
@@ -619,7 +673,14 @@ func (g *Kern) longScreen(sk, dk Kind, specials []uint64) {
 			src.SetSample(i, specials[i%m])
 			dst.SetSample(i, fill)
 		}
-		if p := try(func() { convCall(sk, dk)(src, dst) }); p != "" {
+		// (the run of 2^18+3 samples with a single processor: worker counts derived from GOMAXPROCS can be zero)
+		procs := 0
+		if L == 1<<18+3 {
+			procs = 1
+		}
+		var p string
+		withProcs(procs, func() { p = try(func() { convCall(sk, dk)(src, dst) }) })
+		if p != "" {
 			fmt.Fprintf(g.out, "kpanic %s %s %s long%d %s\n", convName(sk, dk), sk, dk, L, strings.ReplaceAll(p, " ", "_"))
 			g.st.lines++
 			continue
@@ -863,11 +924,18 @@ func genC16(g *Kern, r *Rng, tier string) {
 // c16Concurrent: the bit-depth functions are pure; called from many goroutines at once, each with its own depth,
 // they must return what they return alone (process-wide caches of "the last depth" are shared state). Results that
 // differ from the sequential ones are emitted as ordinary `sv` / `uv` / `bd` lines for the predicates to judge.
+var c16Sink int
+var c16Go, c16Ready int32
+var c16Spinners = 1
+
 func c16Concurrent(g *Kern, r *Rng, tier string) {
 	depths := []int{8, 16, 24, 32, 5, 63, 64, 1, 12, 48}
 	iters := 30000
 	if tier == "thorough" {
 		iters = 400000
+	}
+	if tier == "cold" {
+		iters = 300 // the first few calls are the ones that matter
 	}
 	type rec struct {
 		kind string
@@ -878,12 +946,40 @@ func c16Concurrent(g *Kern, r *Rng, tier string) {
 	var mu sync.Mutex
 	var bad []rec
 	var wg sync.WaitGroup
+	c16Start := make(chan struct{})
+	c16Spinners = runtime.GOMAXPROCS(0) - 2
+	if c16Spinners < 1 {
+		c16Spinners = 1
+	}
+	if c16Spinners > 12 {
+		c16Spinners = 12
+	}
+	if tier == "cold" {
+		// more goroutines than depths: several per depth, so that some always run while the first caller is still
+		// inside whatever the first call sets up
+		depths = append(append(append([]int{}, depths...), depths...), depths...)
+		depths = append(depths, depths...)
+	}
 	for gi, d := range depths {
 		wg.Add(1)
 		seed := r.Next()
 		go func(gi, d int, seed uint64) {
 			defer wg.Done()
 			defer func() { recover() }()
+			if tier == "cold" && gi < c16Spinners {
+				// the first goroutines wait on a flag they poll (one per processor), so that they really start
+				// within nanoseconds of each other; the rest wait on the channel
+				atomic.AddInt32(&c16Ready, 1)
+				for atomic.LoadInt32(&c16Go) == 0 {
+				}
+			} else {
+				<-c16Start
+			}
+			spin := 0
+			for i := 0; i < gi*40; i++ { // ... staggered by a fraction of a microsecond each
+				spin += i
+			}
+			c16Sink += spin
 			lr := &Rng{s: seed}
 			bd := signal.BitDepth(d)
 			// sequential reference, computed before the other goroutines start mattering: plain arithmetic
@@ -922,7 +1018,7 @@ func c16Concurrent(g *Kern, r *Rng, tier string) {
 					}
 					mu.Unlock()
 				}
-				if it%64 == 0 {
+				if it%64 == 0 || tier == "cold" {
 					if a, b2, c := bd.MaxSignedValue(), bd.MaxUnsignedValue(), bd.MinSignedValue(); a != maxS || b2 != maxU || c != minS {
 						mu.Lock()
 						if len(bad) < 8 {
@@ -934,6 +1030,13 @@ func c16Concurrent(g *Kern, r *Rng, tier string) {
 			}
 		}(gi, d, seed)
 	}
+	if tier == "cold" {
+		for atomic.LoadInt32(&c16Ready) < int32(c16Spinners) {
+			runtime.Gosched()
+		}
+	}
+	atomic.StoreInt32(&c16Go, 1)
+	close(c16Start)
 	wg.Wait()
 	for _, x := range bad {
 		switch x.kind {
@@ -1033,6 +1136,12 @@ func genC17(g *Kern, r *Rng, tier string) {
 		// durations 0..24h, dense near ties of f*d/1e9
 		var ds []int64
 		ds = append(ds, 0, 1, 86400e9, 86400e9-1, 1e9, 1e9+1, 1e9-1)
+		// spans of months and years (beyond 2^53 ns): the half-event clause has no upper limit on the duration
+		if f <= 1000 {
+			for _, big := range []int64{1<<53 + 1, 1<<53 + 1900000001, 1<<55 + 12345678901, 1<<60 + 987654321, 1<<62 + 5} {
+				ds = append(ds, big, big+1900000000)
+			}
+		}
 		for i := 0; i < per; i++ {
 			ds = append(ds, int64(r.Next()%uint64(86400e9+1)))
 		}
